@@ -31,15 +31,42 @@ def return_tags(ctx: Context, callee: FunctionInfo, call: ast.Call,
         if isinstance(e, ast.Constant):
             env[p] = e.value
         init[p] = arg_tags(e)
-    cfg = CFG(callee, env=env)
-    tf = TagFlow(cfg, init, hook=make_hook(ctx, callee, depth + 1))
-    out = EMPTY
-    live = cfg.live_nodes()
-    for n in live:
-        if n.kind == "stmt" and isinstance(n.ast, ast.Return) and \
-                n.ast.value is not None:
-            out |= tf.tags_at(n, n.ast.value)
+    if callee.cls is not None and not callee.is_static and \
+            not callee.is_classmethod and isinstance(call.func, ast.Attribute) \
+            and callee.params()[:1] == ["self"]:
+        init["self"] = arg_tags(call.func.value)
+    # recursion: least fixpoint, starting from "returns nothing tagged"
+    if callee.fq in _ACTIVE:
+        return _ACTIVE[callee.fq]
+    cache = ctx.__dict__.setdefault("_c20_return_tags", {})
+    key = (callee.fq, repr(sorted(env.items(), key=repr)),
+           repr(sorted((k, sorted(v)) for k, v in init.items())),
+           min(depth, 2), repr(sorted((k, sorted(v))
+                                      for k, v in _ACTIVE.items())))
+    if key in cache:
+        return cache[key]
+    _ACTIVE[callee.fq] = EMPTY
+    try:
+        for _ in range(4):
+            cfg = CFG(callee, env=env)
+            tf = TagFlow(cfg, init, hook=make_hook(ctx, callee, depth + 1))
+            out = EMPTY
+            live = cfg.live_nodes()
+            for n in live:
+                if n.kind == "stmt" and isinstance(n.ast, ast.Return) and \
+                        n.ast.value is not None:
+                    out |= tf.tags_at(n, n.ast.value)
+            if out == _ACTIVE[callee.fq]:
+                break
+            _ACTIVE[callee.fq] = out
+    finally:
+        del _ACTIVE[callee.fq]
+    cache[key] = out
     return out
+
+
+_ACTIVE: dict[str, frozenset] = {}
+CONTENT_READS = {"read_text", "read_bytes", "read", "readline", "readlines"}
 
 
 def make_hook(ctx: Context, fn: FunctionInfo, depth: int = 0):
@@ -54,13 +81,14 @@ def make_hook(ctx: Context, fn: FunctionInfo, depth: int = 0):
             if ctx.is_call(fn, e, "os.getcwd", "os.path.abspath",
                            "os.path.realpath", "tempfile.gettempdir"):
                 return frozenset({"absolute"})
-            if depth < 2:
-                targets = [t for t in ctx.internal_targets(fn, e)
-                           if not isinstance(t.node, ast.Lambda) and
-                           t.name != "__init__"]
-                if len(targets) == 1 and targets[0].node.returns is not None \
-                        and "Path" in ast.unparse(targets[0].node.returns):
-                    return return_tags(ctx, targets[0], e, rec, depth)
+            if isinstance(f, ast.Attribute) and f.attr in CONTENT_READS:
+                return EMPTY  # the content of a file is not its path
+            targets = [t for t in ctx.internal_targets(fn, e)
+                       if not isinstance(t.node, ast.Lambda) and
+                       t.name != "__init__"]
+            if len(targets) == 1 and (depth < 2 or
+                                      targets[0].fq in _ACTIVE):
+                return return_tags(ctx, targets[0], e, rec, depth)
         return None
     return hook
 
@@ -145,7 +173,10 @@ def run(ctx: Context, rep) -> None:
     for _ in range(3):
         for fn in funcs:
             cfg = ctx.cfg(fn)
-            tf = TagFlow(cfg, {p: frozenset({"p:" + p}) for p in fn.params()})
+            base = make_hook(ctx, fn)
+            tf = TagFlow(cfg, {p: frozenset({"p:" + p}) for p in fn.params()},
+                         hook=lambda e, st, rec, base=base: None if isinstance(
+                             e, (ast.Name, ast.Attribute)) else base(e, st, rec))
             for node in cfg.calls():
                 for e, _label in sinks_of(fn, node.ast):
                     for t in tf.tags_at(node, e):
